@@ -361,10 +361,22 @@ fn diags_json(ds: &[vhdl_lang::Diagnostic]) -> Value {
     )
 }
 
-fn make_config(dir: &str, libfiles: &BTreeMap<String, Vec<String>>, third_party: &dyn Fn(&str) -> bool) -> Config {
+/// `layered`: an earlier configuration file defines the same libraries with the OPPOSITE is_third_party flags
+/// (installation / home / VHDL_LS_CONFIG / project files are merged with Config::append: the last definition decides)
+fn make_config(dir: &str, libfiles: &BTreeMap<String, Vec<String>>, third_party: &dyn Fn(&str) -> bool, layered: bool) -> Config {
     let mut msgs = NullMessages;
     let mut cfg = Config::default();
     cfg.load_external_config(&mut msgs, Some("/repo/vhdl_libraries".to_string()));
+    if layered {
+        let mut toml = String::from("[libraries]\n");
+        for (lib, files) in libfiles {
+            toml.push_str(&format!("{}.files=[{}]\n", lib, files.iter().map(|n| format!("'{}'", n)).collect::<Vec<_>>().join(",")));
+            if !third_party(lib) {
+                toml.push_str(&format!("{}.is_third_party=true\n", lib));
+            }
+        }
+        cfg.append(&Config::from_str(&toml, Path::new(dir)).expect("config"), &mut msgs);
+    }
     let mut toml = String::from("[libraries]\n");
     for (lib, files) in libfiles {
         toml.push_str(&format!(
@@ -389,6 +401,8 @@ fn run_project(pj: &Value, workdir: &str) -> Value {
     let mut libfiles: BTreeMap<String, Vec<String>> = BTreeMap::new();
     libfiles.insert("lib".into(), vec![]);
     libfiles.insert("tp".into(), vec![]);
+    libfiles.insert("lib2".into(), vec![]);
+    let layered = pj["layered"].as_bool().unwrap_or(false);
     let mut all_files = vec![];
     let mut marks = vec![]; // per group: {"gid","lib","v0":{decls,refs},"v1":...}
     let mut edits: Vec<(String, String)> = vec![];
@@ -423,11 +437,11 @@ fn run_project(pj: &Value, workdir: &str) -> Value {
     }
     let mut steps = vec![];
     let mut msgs = NullMessages;
-    let cfg = make_config(&dir, &libfiles, &|l| l == "tp");
+    let cfg = make_config(&dir, &libfiles, &|l| l == "tp", layered);
     let mut p = Project::from_config(cfg, &mut msgs);
     p.enable_unused_declaration_detection();
     let d0 = p.analyse();
-    steps.push(json!({"what":"initial","tp":{"lib":false,"tp":true},"diags":diags_json(&d0),"real":real_events(&p, &all_files)}));
+    steps.push(json!({"what":"initial","tp":{"lib":false,"tp":true,"lib2":false},"diags":diags_json(&d0),"real":real_events(&p, &all_files)}));
     if !edits.is_empty() {
         for (path, text) in &edits {
             let src = p.get_source(Path::new(path)).unwrap_or_else(|| Source::inline(Path::new(path), text));
@@ -435,16 +449,16 @@ fn run_project(pj: &Value, workdir: &str) -> Value {
             p.update_source(&src);
         }
         let d1 = p.analyse();
-        steps.push(json!({"what":"edit","tp":{"lib":false,"tp":true},"diags":diags_json(&d1),"real":real_events(&p, &all_files)}));
+        steps.push(json!({"what":"edit","tp":{"lib":false,"tp":true,"lib2":false},"diags":diags_json(&d1),"real":real_events(&p, &all_files)}));
     }
     if pj["flip"].as_bool().unwrap_or(false) {
-        let cfg = make_config(&dir, &libfiles, &|l| l == "lib");
+        let cfg = make_config(&dir, &libfiles, &|l| l == "lib", layered);
         p.update_config(cfg, &mut msgs);
         let d2 = p.analyse();
-        steps.push(json!({"what":"flip","tp":{"lib":true,"tp":false},"diags":diags_json(&d2),"real":real_events(&p, &all_files)}));
+        steps.push(json!({"what":"flip","tp":{"lib":true,"tp":false,"lib2":false},"diags":diags_json(&d2),"real":real_events(&p, &all_files)}));
     }
     let _ = std::fs::remove_dir_all(&dir);
-    json!({"id": pid, "dir": dir, "marks": marks, "steps": steps})
+    json!({"id": pid, "dir": dir, "layered": layered, "marks": marks, "steps": steps})
 }
 
 fn main() {
